@@ -46,6 +46,11 @@ def confirm(prop, k, slot):
     return res
 
 
+def _sv_job(a):
+    from tools.ingest_seeds import static_verdicts
+    return static_verdicts(*a)
+
+
 def main():
     from tools.ingest_seeds import static_verdicts
     props = sys.argv[1:]
@@ -58,12 +63,16 @@ def main():
     with ThreadPoolExecutor(4) as ex:
         for r in ex.map(lambda idx: [confirm(p, k, idx) for p, k in lanes[idx]], range(4)):
             results += [x for x in r if x]
+    import multiprocessing as mp
+    usable = [r for r in results if r.get("ok")]
+    with mp.get_context("fork").Pool(14) as pool:
+        svs = dict(zip([r["id"] for r in usable], pool.map(_sv_job, [(r["_diff"].decode(), built) for r in usable], chunksize=1)))
     for r in sorted(results, key=lambda r: r["id"]):
         diff = r.pop("_diff", b"")
         if not r.get("ok"):
             print("%-8s NOT USABLE: %s" % (r["id"], r.get("why")))
             continue
-        sv = static_verdicts(diff.decode(), built)
+        sv = svs[r["id"]]
         viol = sorted(p for p, v in sv.items() if isinstance(v, dict) and v.get("status") == "violation")
         err = sorted(p for p, v in sv.items() if isinstance(v, dict) and v.get("status") == "error")
         try:
